@@ -95,6 +95,9 @@ func DefaultConv(pkg *Package, t types.Type, pv *Element) types.Type {
 }
 
 func ConvertibleTo(pkg *Package, V, T types.Type) bool {
+	if V == nil || T == nil { // operand without a value
+		return false
+	}
 	pkg.cb.ensureLoaded(V)
 	pkg.cb.ensureLoaded(T)
 	if V == types.Typ[types.UnsafePointer] {
@@ -111,6 +114,9 @@ func AssignableTo(pkg *Package, V, T types.Type) bool {
 }
 
 func AssignableConv(pkg *Package, V, T types.Type, pv *Element) bool {
+	if V == nil || T == nil { // operand without a value
+		return false
+	}
 	pkg.cb.ensureLoaded(V)
 	pkg.cb.ensureLoaded(T)
 	V, T = realType(V), realType(T)
@@ -275,6 +281,9 @@ func assignable(pkg *Package, v types.Type, t *types.Named, pv *internal.Elem) b
 
 func ComparableTo(pkg *Package, varg, targ *Element) bool {
 	V, T := varg.Type, targ.Type
+	if V == nil || T == nil { // operand without a value
+		return false
+	}
 	if v, ok := V.(*types.Basic); ok {
 		if (v.Info() & types.IsUntyped) != 0 {
 			return untypedComparable(pkg, v, varg, T)
